@@ -252,7 +252,7 @@ func runPoolCase(c *checkCtx, cs poolCase) (res poolResult) {
 					}
 					select {
 					case <-probeRelease:
-					case <-time.After(15 * time.Millisecond): // shorter than the rebuild interval: the teardown must have run before the pool is rebuilt
+					case <-time.After(time.Duration(envInt("VERIF_C15_PARK_MS", 15)) * time.Millisecond): // shorter than the rebuild interval: the teardown must have run before the pool is rebuilt
 					}
 				}
 			}
